@@ -224,6 +224,7 @@ def asgRecv (a b : Ty) : Bool :=
        | b' => !asg b' .undef && asg x b')
   | .typ x => (match b with | .typ y => asg x y | _ => false)
   | .sensitive x => (match b with | .sensitive y => asg x y | _ => false)
+  | .iterator x => (match b with | .iterator y => asg x y | _ => false)
   | .iterable x =>
       (match b with
        | .array e' r' => decide (r'.hi ≤ 0) || asg x e'
